@@ -46,6 +46,10 @@ pub struct ModelSpec {
     /// per tree: (state number as written, tree, pdfs (index = leaf id - 1), each a flat f32 vector)
     pub trees: Vec<(usize, TreeSpec, Vec<Vec<f32>>)>,
     pub quoted: bool,
+    /// how the internal nodes of a tree are numbered and listed (all legal: the root comes first, every node after
+    /// its parent): 0 ids 0,-1,-2,.. in listing order; 1 non-contiguous ids (0,-5,-8,..); 2 ids counted the other
+    /// way round (0,-K,..,-1); 3 the rows of the yes-subtree listed before those of the no-subtree
+    pub numbering: u8,
 }
 #[derive(Clone, Debug)]
 pub struct StreamSpec {
@@ -93,39 +97,60 @@ fn tree_text(m: &ModelSpec) -> Vec<u8> {
             }
             _ => {
                 s += "{\n";
-                let mut rows: Vec<(i64, usize, String, String)> = Vec::new();
+                // child: Ok(leaf name) or Err(node id)
+                let mut rows: Vec<(i64, usize, Result<String, i64>, Result<String, i64>)> = Vec::new();
                 let mut next_id = 0i64;
                 fn walk(
                     t: &TreeSpec,
                     id: i64,
                     next_id: &mut i64,
-                    rows: &mut Vec<(i64, usize, String, String)>,
+                    rows: &mut Vec<(i64, usize, Result<String, i64>, Result<String, i64>)>,
                     leaf: &dyn Fn(usize) -> String,
+                    yes_first: bool,
                 ) {
                     if let TreeSpec::Node { q, no, yes } = t {
-                        let child = |c: &TreeSpec, next_id: &mut i64| -> (String, Option<i64>) {
+                        let child = |c: &TreeSpec, next_id: &mut i64| -> Result<String, i64> {
                             match c {
-                                TreeSpec::Leaf(i) => (leaf(*i), None),
+                                TreeSpec::Leaf(i) => Ok(leaf(*i)),
                                 _ => {
                                     *next_id -= 1;
-                                    (format!("{}", *next_id), Some(*next_id))
+                                    Err(*next_id)
                                 }
                             }
                         };
-                        let (ns, nid) = child(no, next_id);
-                        let (ys, yid) = child(yes, next_id);
-                        rows.push((id, *q, ns, ys));
-                        if let Some(i) = nid {
-                            walk(no, i, next_id, rows, leaf);
+                        let ns = child(no, next_id);
+                        let ys = child(yes, next_id);
+                        rows.push((id, *q, ns.clone(), ys.clone()));
+                        let mut subs = vec![(no, ns), (yes, ys)];
+                        if yes_first {
+                            subs.reverse();
                         }
-                        if let Some(i) = yid {
-                            walk(yes, i, next_id, rows, leaf);
+                        for (sub, r) in subs {
+                            if let Err(i) = r {
+                                walk(sub, i, next_id, rows, leaf, yes_first);
+                            }
                         }
                     }
                 }
-                walk(t, 0, &mut next_id, &mut rows, &leafname);
+                walk(t, 0, &mut next_id, &mut rows, &leafname, m.numbering == 3);
+                let k = rows.len() as i64 - 1;
+                let remap = |id: i64| -> i64 {
+                    if id == 0 {
+                        0
+                    } else {
+                        match m.numbering {
+                            1 => -(3 * id.abs() + 2),
+                            2 => -(k + 1 - id.abs()),
+                            _ => id,
+                        }
+                    }
+                };
                 for (id, q, n, y) in rows {
-                    s += &format!(" {:4} {:40} {:>16} {:>16} \n", id, m.questions[q].0, n, y);
+                    let show = |c: Result<String, i64>| match c {
+                        Ok(l) => l,
+                        Err(i) => format!("{}", remap(i)),
+                    };
+                    s += &format!(" {:4} {:40} {:>16} {:>16} \n", remap(id), m.questions[q].0, show(n), show(y));
                 }
                 s += "}\n";
             }
@@ -242,7 +267,11 @@ pub fn window_set(w: usize) -> Vec<Vec<f64>> {
         ],
         // mixed widths: width-3 delta with width-5 delta-delta, and the reverse
         4 => vec![vec![1.0], vec![-0.5, 0.0, 0.5], vec![0.285714, -0.142857, -0.285714, -0.142857, 0.285714]],
-        _ => vec![vec![1.0], vec![-0.2, -0.1, 0.0, 0.1, 0.2], vec![1.0, -2.0, 1.0]],
+        5 => vec![vec![1.0], vec![-0.2, -0.1, 0.0, 0.1, 0.2], vec![1.0, -2.0, 1.0]],
+        // even-length windows (HTS: positions -n/2 .. n/2-1, so they reach further back than forward); in 6 the widest
+        // window is even, in 7 the only dynamic window is the backward difference
+        6 => vec![vec![1.0], vec![-1.0, 1.0], vec![0.5, -0.5, -0.5, 0.5]],
+        _ => vec![vec![1.0], vec![-1.0, 1.0]],
     }
 }
 
@@ -368,6 +397,7 @@ impl GenCfg {
             prefix: "dur".into(),
             questions: qs.clone(),
             quoted: self.quoted,
+            numbering: 0,
             trees: vec![(
                 2,
                 dtree,
@@ -387,6 +417,7 @@ impl GenCfg {
                 prefix: prefix.into(),
                 questions: qs.clone(),
                 quoted: self.quoted,
+                numbering: 0,
                 trees: (0..n)
                     .map(|s| {
                         let (t, nl) = self.tree_for(s);
@@ -459,6 +490,7 @@ impl GenCfg {
             prefix: prefix.into(),
             questions: vec![],
             quoted: self.quoted,
+            numbering: 0,
             trees: vec![(2, TreeSpec::Leaf(1), vec![{
                 let mut p = vec![mean; vlen];
                 p.extend(vec![mean * mean * 0.02; vlen]);
